@@ -203,3 +203,46 @@ func loadRoutes(rs *synth.RouteSpec) (*fastload.Loaded, string, error) {
 	}
 	return ld, ld.FileName, nil
 }
+
+// fidelity compares the in-process loader with the real analysis.LoadSource on one spec:
+// the outputs of every generator must be byte-identical. A disagreement is a harness defect.
+func fidelity(spec *synth.Spec) error {
+	dir, err := os.MkdirTemp(scratch(), "fid-")
+	if err != nil {
+		return h.Inconcf("scratch: %v", err)
+	}
+	defer os.RemoveAll(dir)
+	mod := filepath.Join(dir, "go", "src", "verif.test", "org", "proj")
+	file, err := fastload.WriteModule(spec, mod)
+	if err != nil {
+		return h.Inconcf("write module: %v", err)
+	}
+	devnull, _ := os.OpenFile(os.DevNull, os.O_WRONLY, 0)
+	oldErr := os.Stderr
+	os.Stderr = devnull
+	pkg, lerr := analysis.LoadSource(file)
+	os.Stderr = oldErr
+	devnull.Close()
+	if lerr != nil {
+		return h.Inconcf("the real loader refuses a program the in-process loader accepts: %v\n%s", lerr, spec.Text())
+	}
+	ld, err := fastload.Load(spec)
+	if err != nil {
+		return h.Inconcf("fastload: %v", err)
+	}
+	var anReal, anFast *analysis.Analysis
+	ocR := guard(func() { anReal = analysis.NewAnalysisFromFile(pkg, file) })
+	ocF := guard(func() { anFast = analysis.NewAnalysisFromFile(ld.Root, ld.FileName) })
+	if ocR.Panicked != ocF.Panicked || ocR.Msg != ocF.Msg {
+		return h.Inconcf("analysis outcome differs between loaders: real %q, in-process %q\n%s", ocR.Msg, ocF.Msg, spec.Text())
+	}
+	if ocR.Panicked {
+		return nil
+	}
+	real := c07Outputs(anReal, gopathRoot(spec))
+	fast := c07Outputs(anFast, gopathRoot(spec))
+	if d := diffOutputs(real, fast); d != "" {
+		return h.Inconcf("generator outputs differ between the real loader and the in-process loader: %s\n%s", d, spec.Text())
+	}
+	return nil
+}
